@@ -52,6 +52,9 @@ type BlockField struct {
 type SrcRef struct {
 	Name        string
 	Start, Stop uint64
+	// Padded: start and stop are written as decimal strings with a leading zero ("0120"), as a templating tool or an
+	// environment variable may deliver them; they mean the same numbers
+	Padded bool
 }
 
 // Decl is one integration.
@@ -196,9 +199,15 @@ func (d *Decl) ConfigJSON() map[string]any {
 		m := map[string]any{"name": s.Name}
 		if s.Start > 0 {
 			m["start"] = s.Start
+			if s.Padded {
+				m["start"] = fmt.Sprintf("0%d", s.Start)
+			}
 		}
 		if s.Stop > 0 {
 			m["stop"] = s.Stop
+			if s.Padded {
+				m["stop"] = fmt.Sprintf("00%d", s.Stop)
+			}
 		}
 		srcs = append(srcs, m)
 	}
